@@ -13,24 +13,40 @@ Definition fs_of (l1 l2 : store) : fstate := mkFS (mkTS l1 false 0) (mkTS l2 fal
 Definition at_most_one_fault (pl : plan) : Prop :=
   forall t n t' n', pl t n <> None -> pl t' n' <> None -> t = t' /\ n = n'.
 
+(* an injected status is an error status, i.e. one that binprot.DecodeError maps to an error
+   (the thirteen statuses of Consts_gen.decodeError_tab). DecodeError returns nil for every
+   other status, so a backend that answers, say, 0x07 without applying the request is taken
+   for success — see c10_unknown_status_taken_for_success below (known finding). *)
+Definition error_statuses (pl : plan) : Prop :=
+  forall t n st, pl t n = Some (FStatus st) -> decode_error st <> None.
+
 (* Contained, for ANY fault plan (any number of faults, any kinds, any positions), any
    orchestrator configuration, any state: the client request ends either with the connection
    closed, or with a reply stream that ends in the request's own completion (acknowledgement /
    terminator) or an error reply — and in which every non-quiet key of a get was answered
-   unless an error reply ended it. Never "open, and still waiting". *)
+   unless an error reply ended it. Never "open, and still waiting".
+   [combo_ok Bin lck r] excludes exactly one request: a get without any key through the locking
+   wrapper (LockedOrca.Get loops over the keys, so it writes nothing at all; neither parser
+   produces such a request; same exclusion as in C01): c10_locked_empty_get_unanswered. *)
 Theorem c10_contained : forall pl k lck r st now,
-  in_scope k r = true ->
+  in_scope k r = true -> combo_ok Bin lck r = true ->
   let '(_, cs, c) := serve1_f pl (orca_cfg k lck) r st now in
   c = Closed \/ (answered r cs = true /\ get_keys_answered r cs = true).
 Proof. exact contained. Qed.
 Print Assumptions c10_contained.
+
+Theorem c10_locked_empty_get_unanswered :
+  let '(_, cs, c) := serve1_f no_faults (orca_cfg KL1L2 true) (RGet [] 0 false) (fs_of empty_store empty_store) 0 in
+  c = Open /\ cs = [] /\ in_scope KL1L2 (RGet [] 0 false) = true.
+Proof. exact locked_empty_get_unanswered. Qed.
+Print Assumptions c10_locked_empty_get_unanswered.
 
 (* No stale value after an ack: with one fault anywhere, from a consistent state, if a
    set/add/replace/append/prepend/delete/touch was acknowledged then the authoritative tier
    holds exactly what the reference map holds after the command, and L1 holds for that key
    either nothing or the same value (in particular a refused L1 write was compensated). *)
 Theorem c10_no_stale_after_ack : forall pl k lck r now l1 l2 key,
-  at_most_one_fault pl -> inv k now l1 l2 -> in_scope k r = true ->
+  at_most_one_fault pl -> error_statuses pl -> inv k now l1 l2 -> in_scope k r = true ->
   (match r with RSet _ x _ _ _ _ _ | RCat _ x _ _ _ | RDelete x _ | RTouch x _ _ => x = key | _ => False end) ->
   let '(st', cs, c) := serve1_f pl (orca_cfg k lck) r (fs_of l1 l2) now in
   c = Open -> existsb (is_ack r) cs = true ->
@@ -43,9 +59,9 @@ Print Assumptions c10_no_stale_after_ack.
 
 (* A read during a fault returns the map's value or a miss, never anything else: every value
    frame a get emits under any single fault carries the data and flags the authoritative tier
-   holds for that key. *)
+   holds for that key. (The proof does not use the single-fault hypothesis: read_sound_any.) *)
 Theorem c10_read_sound : forall pl k lck now l1 l2 items no ne g,
-  at_most_one_fault pl -> inv k now l1 l2 -> k <> KL1Only \/ True ->
+  at_most_one_fault pl -> inv k now l1 l2 ->
   let '(_, cs, _) := serve1_f pl (orca_cfg k lck) (RGet items no ne) (fs_of l1 l2) now in
   In (PGet g) cs -> g_miss g = false ->
   exists e, live now (auth k l1 l2) (g_key g) = Some e /\ g_data g = e_data e /\ g_flags g = e_flags e.
@@ -56,7 +72,7 @@ Print Assumptions c10_read_sound.
    serve afterwards is the value L2 held before the command or the value L2 holds after it —
    so a later fault-free read returns the old value, the new value, or a miss. *)
 Theorem c10_after_fault : forall pl k lck r now l1 l2 key e1,
-  at_most_one_fault pl -> sub_live now l1 l2 -> k <> KL1Only -> in_scope k r = true ->
+  at_most_one_fault pl -> error_statuses pl -> sub_live now l1 l2 -> k <> KL1Only -> in_scope k r = true ->
   let '(st', _, _) := serve1_f pl (orca_cfg k lck) r (fs_of l1 l2) now in
   live now (t_store (f1 st')) key = Some e1 ->
   (exists e, live now l2 key = Some e /\ e_data e1 = e_data e /\ e_flags e1 = e_flags e) \/
@@ -64,13 +80,31 @@ Theorem c10_after_fault : forall pl k lck r now l1 l2 key e1,
 Proof. exact after_fault. Qed.
 Print Assumptions c10_after_fault.
 
+(* without [error_statuses]: one reply with a status DecodeError does not know (0x07) to the L2
+   set of a plain set; the set is acknowledged, L1 holds the new value, L2 held and holds
+   nothing — both theorems above fail *)
+Theorem c10_unknown_status_taken_for_success :
+  let pl := plan1 L2 0 (FStatus 7) in
+  let r := RSet MSet [1] [7] 0 0 1 false in
+  at_most_one_fault pl /\ ~ error_statuses pl /\ inv KL1L2 5 empty_store empty_store /\
+  let '(st', cs, c) := serve1_f pl (orca_cfg KL1L2 false) r (fs_of empty_store empty_store) 5 in
+  c = Open /\ existsb (is_ack r) cs = true /\
+  live 5 (t_store (f2 st')) [1] = None /\
+  (exists e, live 5 (t_store (f1 st')) [1] = Some e /\ e_data e = [7]) /\
+  let '(s1, _, _) := ref_run empty_store 5 r in exists e, live 5 s1 [1] = Some e /\ e_data e = [7].
+Proof. exact unknown_status_taken_for_success. Qed.
+Print Assumptions c10_unknown_status_taken_for_success.
+
 (* the behaviour before the fix of L1L2Orca.Get: an L1 error in the middle of a multi-key get
    was forgotten after one L2 hit, the connection stayed open and a non-quiet key was never answered *)
 Theorem c10_old_get_error_overwritten_refuted : old_l1l2_get_leaves_key_unanswered.
 Proof. exact old_get_refuted. Qed.
+Print Assumptions c10_old_get_error_overwritten_refuted.
 
 Example c10_nonvacuous :
   let pl : plan := fun t n => match t, n with L1, 1%nat => Some (FBreak false) | _, _ => None end in
-  at_most_one_fault pl /\ inv KL1L2 5 empty_store (upd empty_store [1] (Some (mkE [9] 0 Never))) /\
-  in_scope KL1L2 (RGet [mkGI [1] 1 true; mkGI [2] 2 true; mkGI [1] 3 false] 0 false) = true.
+  at_most_one_fault pl /\ error_statuses pl /\
+  inv KL1L2 5 empty_store (upd empty_store [1] (Some (mkE [9] 0 Never))) /\
+  in_scope KL1L2 (RGet [mkGI [1] 1 true; mkGI [2] 2 true; mkGI [1] 3 false] 0 false) = true /\
+  combo_ok Bin true (RGet [mkGI [1] 1 true; mkGI [2] 2 true; mkGI [1] 3 false] 0 false) = true.
 Proof. exact c10_example. Qed.
